@@ -71,6 +71,8 @@ class World(object):
     def rq(self, c, i):
         t, k = self.tco(c, i), self.kinds[c][i - 1]
         if k == "dlc":
+            if t.state.ESTABLISHED:
+                return [[(p.data[0] if p.data else 0), p.ssap, len(p.data)] for p in t.recv_queue if p.name == "I"]
             return [[0, p.ssap, 0] for p in t.recv_queue if p.name == "CONNECT"] if t.state.LISTEN else []
         return [[(p.data[0] if getattr(p, "data", b"") else 0), p.ssap, len(getattr(p, "data", b""))] for p in t.recv_queue]
 
@@ -259,17 +261,19 @@ class World(object):
         call = Call(self.socks[c][i - 1].recv)
         wait_for(lambda: call.done, "recv() to return")
         call.join()
+        m = 0
         if call.error is None:
             res = "EOF" if call.value is None else "Data"
+            m = call.value[0] if call.value else 0
         else:
             res = abstract_error(call.error)
-        return self.log(op="Recv", c=c, s=i, kind="dlc", res=res)
+        return self.log(op="Recv", c=c, s=i, kind="dlc", res=res, m=m)
 
     def recv_ok(self, c, i):
         st, t = self.state(c, i), self.tco(c, i)
-        if self.kinds[c][i - 1] != "dlc" or st in ("shut", "conn", "connecting", "disc"):
+        if self.kinds[c][i - 1] != "dlc" or st in ("shut", "connecting", "disc"):
             return False
-        return st != "cw" or len(t.recv_queue) > 0
+        return st not in ("cw", "conn") or len(t.recv_queue) > 0
 
     def first_match(self, c, addr, ssap):
         """The socket ServiceAccessPoint.enqueue hands a PDU from `ssap` to (llc.py:126-129)."""
@@ -279,6 +283,26 @@ class World(object):
                 if t.peer == ssap or t.peer is None:
                     return t
         return None
+
+    def dsend_ok(self, c, i):
+        """Guard of the spec's DSend: established, and the other end has read what was sent before (window 1)."""
+        if self.state(c, i) != "conn":
+            return False
+        t = self.tco(c, i)
+        other = self.first_match(self.peer(c), t.peer, t.addr)
+        return t.send_window_slots > 0 and (other is None or len(other.recv_queue) == 0)
+
+    def dsend(self, c, i, m):
+        self.cur = dict(op="DSend", c=c, s=i, m=m)
+        p = self.peer(c)
+        before = self.qlens(p)
+        res = self._call(self.socks[c][i - 1].send, bytes([m]), DONTWAIT)
+        settle(self.llc["A"], self.llc["B"])
+        got = 0
+        for j, (x, y) in enumerate(zip(before, self.qlens(p))):
+            if y > x:
+                got = j + 1
+        return self.log(op="DSend", c=c, s=i, m=m, kind="dlc", res=res, got=got)
 
     def frmr_ok(self, c, i):
         t = self.tco(c, i)
@@ -419,6 +443,10 @@ def random_ops(W, rnd, steps, sides="AB", names=None, weights=None):
             cw = [j for j in cand if W.state(c, j) == "cw"]
             if cand:
                 W.recv(c, rnd.choice(cw * 4 + cand))
+        elif r < 0.965:
+            cand = [j for j in live if W.dsend_ok(c, j)]
+            if cand:
+                W.dsend(c, rnd.choice(cand), rnd.choice([1, 2]))
         elif r < 0.97:
             cand = [j for j in live if W.frmr_ok(c, j)]
             if cand:
@@ -432,7 +460,7 @@ def close_ok(W, c, i):
     return W.close_ok(c, i)
 
 
-ENDINGS = ("peer-disc,recv,close", "peer-disc,close", "close,peer-recv,peer-close", "frmr,close", "frmr-at-client,close",
+ENDINGS = ("reuse", "reuse", "peer-disc,recv,close", "peer-disc,close", "close,peer-recv,peer-close", "frmr,close", "frmr-at-client,close",
            "ui-at-listener,close", "refused,close")
 
 
@@ -476,7 +504,39 @@ def life(W, rnd):
             if W.state(c, lst) == "listen" and len(W.tco(c, lst).recv_queue) > 0:
                 acc = W.accept(c, lst)["got"]
             caddr = W.tco(p, cli).addr
-            if ending == "peer-disc,recv,close" and acc:
+            if ending == "reuse" and acc:
+                # the remote address disconnects and connects again to the same service while the first server-side
+                # socket is still in CLOSE_WAIT / shut down by recv() / closed; then data both ways and a DISC
+                W.close(p, cli)
+                v = rnd.choice(["cw", "dead", "closed"])
+                if v == "dead":
+                    W.recv(c, acc)
+                elif v == "closed":
+                    W.close(c, acc)
+                cli2 = W.socket(p, "dlc")
+                W.bind_addr(p, cli2, caddr)
+                W.connect(p, cli2, a=addr)
+                acc2 = 0
+                if W.state(c, lst) == "listen" and len(W.tco(c, lst).recv_queue) > 0:
+                    acc2 = W.accept(c, lst)["got"]
+                if acc2:
+                    for k in range(2):
+                        for (side, i, oside, o) in ((p, cli2, c, acc2), (c, acc2, p, cli2)):
+                            if W.dsend_ok(side, i):
+                                W.dsend(side, i, 1 + k)
+                                for j in range(1, len(W.socks[oside]) + 1):      # whoever got it reads it
+                                    if W.kinds[oside][j - 1] == "dlc" and W.state(oside, j) == "conn" and \
+                                            len(W.tco(oside, j).recv_queue) > 0:
+                                        W.recv(oside, j)
+                    first, second = rnd.choice([((p, cli2), (c, acc2)), ((c, acc2), (p, cli2))])
+                    if W.close_ok(*first):
+                        W.close(*first)
+                    if rnd.random() < 0.5 and W.recv_ok(*second):
+                        W.recv(*second)
+                    if W.close_ok(*second):
+                        W.close(*second)
+                cli = cli2
+            elif ending == "peer-disc,recv,close" and acc:
                 W.close(p, cli)
                 W.recv(c, acc)
                 if how == "name" and rnd.random() < 0.5:
@@ -726,13 +786,15 @@ def classify(tr, line, act, why):
     return "%s@%s:%s" % (kind, act, tr["id"].split("-")[0])
 
 
-FAMILIES = ("alloc", "names", "dgram", "life")
+FAMILIES = ("alloc", "names", "dgram", "life", "reuse")
 ASIS = {"alloc": ("NoDoubleAlloc", "INVARIANT"), "names": ("ResolveRight", "PROPERTY"), "dgram": ("NoDoubleAlloc", "INVARIANT")}
 ASIS_EXTRA = (("names", "InUseRight", "PROPERTY"), ("names", "ConnectByName", "PROPERTY"),
               ("life:keep", "FreedOnLastClose", "INVARIANT"),
-              ("dgram:hdr", "Delivered", "PROPERTY"))          # receiver counts the UI header against its MIU      # close() that leaves a dead socket in its access point
+              ("dgram:hdr", "Delivered", "PROPERTY"),
+              ("reuse:ins", "LiveFirst", "INVARIANT"))         # accept() inserts behind older sockets of the access point          # receiver counts the UI header against its MIU      # close() that leaves a dead socket in its access point
 WITNESSES = {"alloc": ["W_NamedExhausted", "W_DynExhausted", "W_WksBound", "W_Access"],
              "names": ["W_Shared", "W_Resolved", "W_ByName"], "dgram": ["W_FullSize", "W_TooLong", "W_Delivered"],
+             "reuse": ["W_Reconnected", "W_DataAfterReuse"],
              "life": ["W_DeadByRecv", "W_RebindAfterDead", "W_DeadByFrmr", "W_DeadByUi", "W_DeadNamed"]}
 
 
@@ -760,7 +822,7 @@ def run(tier, seed):
     suffix = "" if quick else "_thorough"
     t_start, walls = time.time(), {}
     # 1. exhaustive, scaled table, the repaired design: all invariants and step properties hold
-    with cf.ThreadPoolExecutor(max_workers=4) as ex:
+    with cf.ThreadPoolExecutor(max_workers=5) as ex:
         futs = {k: ex.submit(tlc.run, "MC_LlcpAddr.tla", "MC_LlcpAddr_%s%s.cfg" % (k, suffix), PID + "/" + k,
                              workers=4, timeout=400 if quick else 2400) for k in FAMILIES}
         res = {k: f.result() for k, f in futs.items()}
